@@ -68,7 +68,7 @@ def invalid_elems(grp, rnd, thorough):
                     n += 1
                 x += 1
             n = 0
-            while n < (6 if thorough else 2):
+            while n < (24 if thorough else 2):
                 x = rnd.randrange(c.p)
                 if c.sqrt((x * x * x + c.a * x + c.b) % c.p) is None:
                     out.append(("off-curve", bytes([tag]) + x.to_bytes(fl, "big")))
@@ -86,7 +86,7 @@ def invalid_elems(grp, rnd, thorough):
         # a valid encoding with the top bit set (non-canonical)
         out.append(("non-canonical", (int.from_bytes(c25519.r_encode(c25519.B), "little") | (1 << 255)).to_bytes(32, "little")))
         n = 0
-        while n < (8 if thorough else 3):
+        while n < (64 if thorough else 3):
             b = bytes(rnd.randrange(256) for _ in range(32))
             if c25519.r_decode(b) is None:
                 out.append(("random-invalid", b))
